@@ -13,7 +13,12 @@ typedef struct {
 	vk_t *vk;               /* pool key, or NULL for oct */
 	unsigned char oct[300];
 	size_t octlen;
+	int kform;              /* oct only: how k is written (KF_*) */
 } pk_t;
+/* k written canonically; padded with '=' to a multiple of four; followed by "===="; followed by '=' and 80 more characters
+ * (the decoder stops at the first '=': the key is still the octlen bytes ahead of it) */
+enum { KF_CANON, KF_PADDED, KF_OVERPADDED, KF_EMBEDDED, NKF };
+static const char *kf_name[NKF] = { "canonical k", "k padded with =", "k followed by ====", "k followed by = and 80 more characters" };
 
 static pk_t PK[24];
 static int NPK;
@@ -252,7 +257,25 @@ static int attr_list(const pk_t *p, const char **out)
 
 static jwk_set_t *load_pk(const pk_t *p, int priv, const char *attr)
 {
-	char *txt = p->vk ? vk_jwk_text(p->vk, priv, attr, NULL) : vk_oct_jwk(p->oct, p->octlen, attr, NULL);
+	char *txt;
+	if (p->vk)
+		txt = vk_jwk_text(p->vk, priv, attr, NULL);
+	else if (p->kform == KF_CANON)
+		txt = vk_oct_jwk(p->oct, p->octlen, attr, NULL);
+	else {
+		char *k = tok_b64(p->oct, p->octlen), tail[100] = "";
+		if (p->kform == KF_PADDED)
+			memset(tail, '=', (4 - strlen(k) % 4) % 4);
+		else if (p->kform == KF_OVERPADDED)
+			strcpy(tail, "====");
+		else {
+			tail[0] = '=';
+			memset(tail + 1, 'Q', 80);
+		}
+		txt = malloc(strlen(k) + 300);
+		sprintf(txt, "{\"kty\":\"oct\",\"k\":\"%s%s\"%s%s%s}", k, tail, attr ? ",\"alg\":\"" : "", attr ? attr : "", attr ? "\"" : "");
+		free(k);
+	}
 	jwk_set_t *s = jwks_create(txt);
 	free(txt);
 	return s;
@@ -908,17 +931,24 @@ static void enumerate_c09(void)
 	static const jwt_alg_t ES[] = { JWT_ALG_ES256, JWT_ALG_ES256K, JWT_ALG_ES384, JWT_ALG_ES512 };
 	int gnutls = vf_param == 1;
 	/* oct keys of every length 1..160 (length 0 has no JWK form: an empty k is rejected at import) */
-	for (int len = 1; len <= 160; len++)
-		for (int a = 0; a < 3; a++) {
-			if (!vf_case("oct key of %d bytes with %s", len, tok_alg_names[HS[a]]))
-				continue;
-			pk_t p = { 0 };
-			p.name = "oct";
-			p.octlen = len;
-			vk_oct_bytes(len, p.oct, len);
-			int need = HS[a] == JWT_ALG_HS256 ? 32 : HS[a] == JWT_ALG_HS384 ? 48 : 64;
-			floor_cell(&p, HS[a], len >= need, 1);
-		}
+	for (int kf = 0; kf < NKF; kf++)
+		for (int len = 1; len <= 160; len++)
+			for (int a = 0; a < 3; a++) {
+				/* a text of length 1 mod 4 is refused at import (C11): those forms have no key to judge */
+				size_t klen = (len * 4 + 2) / 3, total = kf == KF_PADDED ? (klen + 3) / 4 * 4 : kf == KF_OVERPADDED ? klen + 4 : kf == KF_EMBEDDED ? klen + 81 : klen;
+				if (total % 4 == 1 || (kf == KF_PADDED && klen % 4 == 0))
+					continue;
+				if (!vf_case("oct key of %d bytes (%s) with %s", len, kf_name[kf], tok_alg_names[HS[a]]))
+					continue;
+				pk_t p = { 0 };
+				p.name = "oct";
+				p.octlen = len;
+				p.kform = kf;
+				vk_oct_bytes(len, p.oct, len);
+				int need = HS[a] == JWT_ALG_HS256 ? 32 : HS[a] == JWT_ALG_HS384 ? 48 : 64;
+				/* completeness (a key at or above the floor works) is demanded for the canonical and the padded form only */
+				floor_cell(&p, HS[a], len >= need, kf <= KF_PADDED);
+			}
 	static const char *rsas[] = { "rsa512", "rsa1024", "rsa1536", "rsa2047", "rsa2048a", "rsa2048b", "rsa2056", "rsa3072", "rsa4096", "rsa2048e3", "rsa2048e33", "rsapss2048" };
 	for (unsigned k = 0; k < sizeof rsas / sizeof *rsas; k++)
 		for (int a = 0; a < 6; a++) {
